@@ -28,3 +28,23 @@ func Keys[M ~map[K]V, K cmp.Ordered, V any](m M) []K {
 	sort.Slice(ks, func(i, j int) bool { return ks[i] < ks[j] })
 	return ks
 }
+
+// QuietOn makes the running task skip optional scheduling points until QuietOff.
+func QuietOn() {
+	if s := active.Load(); s != nil {
+		s.Quiet(true)
+	}
+}
+
+// QuietOff undoes QuietOn.
+func QuietOff() {
+	if s := active.Load(); s != nil {
+		s.Quiet(false)
+	}
+}
+
+// QuietOffAfter runs f and then undoes a preceding QuietOn, also when f panics.
+func QuietOffAfter(f func()) {
+	defer QuietOff()
+	f()
+}
